@@ -236,12 +236,16 @@ def _order_add(rec, key):
 
 
 def _m_community(draw, rec, over):
-    shape = draw(st.sampled_from(['pair-high', 'pair-low', 'int', 'hex']))
+    shape = draw(st.sampled_from(['pair-high', 'pair-low', 'int', 'hex', 'pair-high-2^32', 'pair-low-2^32']))
     other = draw(st.sampled_from([0, 1, 65535, 64512]))
     if shape == 'pair-high':
         member = [f'65536:{other}', None] if over else [f'65535:{other}', (65535 << 16) | other]
     elif shape == 'pair-low':
         member = [f'{other}:65536', None] if over else [f'{other}:65535', (other << 16) | 65535]
+    elif shape == 'pair-high-2^32':
+        member = [f'{2**32}:{other}', None] if over else [f'65535:{other}', (65535 << 16) | other]
+    elif shape == 'pair-low-2^32':
+        member = [f'{other}:{2**32}', None] if over else [f'{other}:65535', (other << 16) | 65535]
     elif shape == 'int':
         member = ['4294967296', None] if over else ['4294967295', 2**32 - 1]
     else:
@@ -271,7 +275,8 @@ def _m_ext_community(draw, rec, over):
         member = _ext(head, 'ip', draw(st.sampled_from(['1.2.3.4', '255.255.255.255'])), 65536 if over else 65535)
     else:
         raw = draw(st.binary(min_size=9, max_size=9))
-        raw = bytes([raw[0] & 0x3F]) + raw[1:]
+        kind = draw(st.sampled_from(['0002', '0003', '0102', '0103', '0202', '0203', '8006', '8008', '800a', '4004', '0300', None, None]))
+        raw = (bytes.fromhex(kind) if kind else bytes([raw[0] & 0x3F, raw[1]])) + raw[2:]
         n = draw(st.sampled_from([7, 9, 2, 1])) if over else 8
         member = ['0x' + raw[:n].hex(), raw[:n].hex() if n == 8 else None]
     _replace_member(draw, rec, 'ext_community', member, lambda c: c[1] if c[1] is not None else c[0])
@@ -467,7 +472,7 @@ def _bulk(draw, rec) -> tuple:
 # ---------------------------------------------------------------------------- mutations of the token sequence
 
 
-def _grammar(draw, cl: list, rec: dict) -> tuple:
+def _grammar(draw, cl: list, rec: dict, in_file: bool) -> tuple:
     """(clauses, keyword, kind, fits)"""
     kind = draw(st.sampled_from(['dropped-value', 'dropped-value', 'duplicate-clause', 'unknown-keyword', 'unbalanced', 'extra-token', 'dropped-prefix', 'dropped-clause', 'dropped-clause', 'misplaced-clause']))
     body = [i for i, c in enumerate(cl) if c[0] not in ('prefix', 'head', 'nlri')]
@@ -524,7 +529,9 @@ def _grammar(draw, cl: list, rec: dict) -> tuple:
         cl.insert(1, ['prefix-value', words[1]])
         cl.insert(1, moved)
         return cl, moved[0], kind, None
-    word = draw(st.sampled_from(['bogus 1', 'metric 5', 'endpoint 5', 'next-hop-self', 'communities 1:1', 'Med 5', 'as_path [ 1 ]', '{', '}', ';', 'route 10.9.0.0/24']))
+    words = ['bogus 1', 'metric 5', 'endpoint 5', 'next-hop-self', 'communities 1:1', 'Med 5', 'as_path [ 1 ]', 'route 10.9.0.0/24']
+    # a stray ; { } in an API line; in a file it would change the structure of the file, not the definition
+    word = draw(st.sampled_from(words + ([] if in_file else ['{', '}', ';'])))
     at = draw(st.integers(1, len(cl) - (1 if cl[-1][0] == 'nlri' else 0)))
     cl.insert(at, ['unknown-keyword', word])
     return cl, 'unknown-keyword', 'unknown-keyword', None
@@ -589,7 +596,7 @@ def route_cases(draw) -> dict:
             kw, what, fits, huge = _bulk(draw, rec)
             mutation = {'kind': 'bulk', 'field': kw, 'what': what}
         else:
-            cl, kw, kind, fits = _grammar(draw, clauses(rec), rec)
+            cl, kw, kind, fits = _grammar(draw, clauses(rec), rec, entry.startswith('config'))
             mutation = {'kind': kind, 'field': kw, 'what': kind}
     if cl is None:
         cl = clauses(rec)
